@@ -77,9 +77,10 @@ TDone == /\ Is("done") /\ loop /\ (\A s \in Stages : gr[s] = 0 => status[s] \not
 \* what the user is told when the process exits: a failed run exits non-zero and prints no summary; a
 \* run that succeeded lists every stage of the pipeline that was asked for, once, with its final status
 \* (completed or skipped: nothing else can be left), and no stage of an included pipeline
-TSummary == /\ Is("summary") /\ ~loop /\ Ev.exitfail = gerr[0] /\ Ev.printed = ~gerr[0]
-            /\ (Ev.printed => \A s \in Stages : Ev.lines[s] = IF gr[s] = 0 THEN status[s] ELSE "-")
-            /\ (Ev.printed => \A s \in Stages : gr[s] = 0 => status[s] \in {"D", "S"})
+TSummary == /\ Is("summary") /\ ~loop /\ Ev.exitfail = gerr[0]
+            /\ Ev.printed \in (IF gerr[0] THEN {"no"} ELSE {"yes", "unknown"})    \* (unknown: no header recognised)
+            /\ (Ev.printed = "yes" => \A s \in Stages : Ev.lines[s] \in {"?", IF gr[s] = 0 THEN status[s] ELSE "-"})
+            /\ (\A s \in Stages : gr[s] = 0 /\ ~gerr[0] => status[s] \in {"D", "S"})
             /\ Consume /\ UNCHANGED vars
 \* the process has exited: every context that was used has been taken down
 TEnd == /\ Is("end") /\ AllOver /\ Consume /\ UNCHANGED vars
